@@ -212,6 +212,7 @@ R("c06-pswitch-active-when-not-listed", C, '''        v = abs(vi[0]) - self._par
             return 0.0, STATE_OFF''', '''        v = abs(vi[0]) - self._params["rs"] * io
         if phase_conf and phase in phase_conf:
             return 0.0, STATE_OFF''', fires=["C06", "C04"])
+R("c06-phase-known-by-substring", S, '            if phase not in list(self._g.attrs["phases"].keys()):', '            if not any(phase in p for p in self._g.attrs["phases"]):', fires=["C06"], note="a fragment of a phase name is accepted as a phase")
 R("c06-solve-first-phase-only", S, "            v, i, iters, state = self._solve(vtol, itol, maxiter, quiet, ph)", "            v, i, iters, state = self._solve(vtol, itol, maxiter, quiet, phase_list[0])", fires=["C06"])
 R("c06-show-trise-hoisted", S, '''            sources, dwarns, rail_in, pstate = {}, {}, [], {}
             ndom = {}
